@@ -1,0 +1,39 @@
+//go:build verif
+
+package ring
+
+// Verification hooks (build tag `verif`): thin exported wrappers over unexported functions so that
+// the external correspondence harness (/verif/harness) can drive them. Add-only; no behaviour.
+
+import (
+	"time"
+
+	"github.com/go-kit/log"
+
+	"github.com/grafana/dskit/kv/memberlist"
+)
+
+// VerifNewRing builds a ring client without a KV store and loads desc into it exactly as the
+// watch callback would (updateRingState). Shuffle-shard caches are enabled.
+func VerifNewRing(cfg Config, desc *Desc, strategy ReplicationStrategy) (*Ring, error) {
+	if strategy == nil {
+		strategy = NewDefaultReplicationStrategy()
+	}
+	r, err := NewWithStoreClientAndStrategy(cfg, "verif", "verif-ring", nil, strategy, nil, log.NewNopLogger())
+	if err != nil {
+		return nil, err
+	}
+	r.updateRingState(desc)
+	return r, nil
+}
+
+// VerifUpdateRingState is what the KV watch callback does with a new descriptor.
+func (r *Ring) VerifUpdateRingState(desc *Desc) { r.updateRingState(desc) }
+
+// VerifMergeWithTime is Desc.Merge with an explicit clock.
+func (d *Desc) VerifMergeWithTime(other memberlist.Mergeable, localCAS bool, now time.Time) (memberlist.Mergeable, error) {
+	return d.mergeWithTime(other, localCAS, now)
+}
+
+// VerifSearchToken exposes searchToken.
+func VerifSearchToken(tokens []uint32, key uint32) int { return searchToken(tokens, key) }
